@@ -382,6 +382,8 @@ def backend_name(b):
             s += '/p%s' % b['protocol']
         else:
             s += '/pickle'
+        if b.get('noext'):
+            s += '/noext'
     if b['kind'] == 'sql':
         s += '/mem' if b.get('memory') else '/file'
     return s
@@ -432,6 +434,8 @@ def build_archive(klepto, b, root, public=False, suffix=''):
         return archives.dict_archive('mem', cached=False) if public else _archives.dict_archive()
     if k == 'file':
         ext = '.py' if not b.get('serialized', True) else ('.json' if b.get('protocol') == 'json' else '.pkl')
+        if b.get('noext'):
+            ext = ''
         path = os.path.join(root, 'arch%s%s' % (suffix, ext))
         kw = {'serialized': b.get('serialized', True), 'protocol': b.get('protocol')}
         if public:
